@@ -11,11 +11,18 @@ LIBS = ("scale_typegen", "scale_typegen_description")
 INTS = {"U8": "u8", "U16": "u16", "U32": "u32", "U64": "u64", "U128": "u128", "I8": "i8", "I16": "i16", "I32": "i32", "I64": "i64", "I128": "i128"}
 
 
-def graph(ctx):
-    if "_graph" not in ctx.__dict__:
+def graph(ctx, entry=None):
+    """call graph; with `entry`, indirect calls through fn-pointer fields are bound only to the functions passed at THAT
+    entry's constructor call (the three transformer instantiations do not reach each other)"""
+    cache = ctx.__dict__.setdefault("_graphs", {})
+    if entry not in cache:
         edges, table = k10.fnptr_bindings(ctx.P, LIBS)
-        ctx._graph = (k10.call_graph(ctx.P, LIBS, edges), table)
-    return ctx._graph
+        if entry is not None:
+            mine = {b["bound_to"] for b in table if b["in"] == entry}
+            edges = [(u, f) for u, f in edges if f in mine]
+            table = [b for b in table if b["in"] == entry]
+        cache[entry] = (k10.call_graph(ctx.P, LIBS, edges), table)
+    return cache[entry]
 
 
 def typedef_match_fn(ctx, rid, role, out_pred, crate=D):
@@ -39,10 +46,12 @@ def seed_and_rng(ctx, rid, module):
     t = show(Norm(fn).term(fn["body"]), 10 ** 5)
     ctx.expect(("SeedableRng::seed_from_u64(P%d)" % i_seed) in t and t.count("seed_from_u64") == 1, rid, "seed/identity/" + module, fn["sp"],
                "the generator is seeded with exactly the seed parameter", "seed term: " + t[:300])
-    # no other RNG construction anywhere in the crate
+    # no other RNG construction in anything reachable from this entry
+    g, _table = graph(ctx, fn["path"])
+    reach = k10.reachable(g, [fn["path"]])
     ctors = []
     for c, b in P.all_bodies((D,)):
-        if "body" not in b:
+        if "body" not in b or b["path"] not in reach:
             continue
         for n in walk(b["body"]):
             if n.get("k") in ("Call", "MethodCall"):
@@ -50,7 +59,7 @@ def seed_and_rng(ctx, rid, module):
                 if any(x in cal for x in ("SeedableRng::", "thread_rng", "from_entropy", "OsRng", "rand::random", "from_os_rng", "from_rng")):
                     ctors.append((cshort(b["path"]), cshort(cal)))
     ok = all(c == "SeedableRng::seed_from_u64" for _f, c in ctors)
-    ctx.expect(ok, rid, "seed/only-rng-source", "", "every RNG in the crate is created by seed_from_u64 (%d sites)" % len(ctors), "RNG construction sites: %s" % ctors)
+    ctx.expect(ok, rid, "seed/only-rng-source", "", "every RNG reachable from the entry is created by seed_from_u64 (%d sites)" % len(ctors), "RNG construction sites: %s" % ctors)
     ex = q.fn1(P, "%s::example" % module, D)
     if ex is not None:
         et = show(Norm(ex).term(ex["body"]))
@@ -59,10 +68,10 @@ def seed_and_rng(ctx, rid, module):
 
 def transformer_guard(ctx, rid, module):
     """K13 + fn-pointer bindings: recursion only through Transformer::resolve with an erroring recurse policy"""
-    g, table = graph(ctx)
     fn = q.fn1(ctx.P, "%s::example_from_seed" % module, D)
     if fn is None:
         return
+    g, table = graph(ctx, fn["path"])
     reach = k10.reachable(g, [fn["path"]])
     mine = [b for b in table if b["in"] == fn["path"]]
     ctx.expect(len(mine) == 3, rid, "guard/bindings/" + module, fn["sp"], "the three policies are bound at the constructor call: %s" % [(b["field"].split(".")[-1], cshort(b["bound_to"])) for b in mine],
@@ -81,11 +90,11 @@ def transformer_guard(ctx, rid, module):
 
 
 def panic_inventory(ctx, rid, entry_suffix, crates=(D,)):
-    g, table = graph(ctx)
     fn = q.fn1(ctx.P, entry_suffix, D)
     if fn is None:
         ctx.bad(rid, "missing-anchor/" + entry_suffix, "", "entry point not found")
         return set()
+    g, table = graph(ctx, fn["path"])
     reach = k10.reachable(g, [fn["path"]])
     inv = [s for s in k10.inventory(ctx.P, crates) if s.owner in reach]
     ctx.count("functions reachable from " + entry_suffix, len(reach), 5)
